@@ -2,9 +2,14 @@ package main
 
 import (
 	"bytes"
+	"encoding/binary"
 	"encoding/gob"
 	"encoding/json"
 	"fmt"
+	"github.com/golang/protobuf/proto"
+	"github.com/itchio/lake/tlc"
+	"github.com/itchio/wharf/bsdiff"
+	"github.com/itchio/wharf/pwr"
 	"os"
 	"strings"
 
@@ -52,6 +57,102 @@ func (s *recSaver) Save(c *patcher.Checkpoint) (patcher.AfterSaveAction, error) 
 	return patcher.AfterSaveContinue, nil
 }
 
+// pmsgProto rebuilds the protobuf message of a decoded patch message.
+func pmsgProto(m PMsg) proto.Message {
+	switch m.Kind {
+	case "H":
+		return &pwr.SyncHeader{Type: pwr.SyncHeader_Type(m.A), FileIndex: m.B}
+	case "B":
+		return &pwr.BsdiffHeader{TargetIndex: m.A}
+	case "C":
+		return &bsdiff.Control{Add: m.Data, Copy: m.Data2, Seek: m.A, Eof: m.Eof}
+	}
+	return &pwr.SyncOp{Type: pwr.SyncOp_Type(m.A), FileIndex: m.B, BlockIndex: m.C, BlockSpan: m.D, Data: m.Data}
+}
+
+func frameLen(m proto.Message) int64 {
+	n := proto.Size(m)
+	var tmp [binary.MaxVarintLen64]byte
+	return int64(binary.PutUvarint(tmp[:], uint64(n)) + n)
+}
+
+// msgOffsets: offset (as the series' message reader counts it: from the first byte after the patch header, in the
+// decompressed stream) at which message j starts, j counting from the first SyncHeader; the last entry is the end.
+func msgOffsets(oldC, newC *tlc.Container, msgs []PMsg) []int64 {
+	off := frameLen(oldC) + frameLen(newC)
+	out := make([]int64, 0, len(msgs)+1)
+	for _, m := range msgs {
+		out = append(out, off)
+		off += frameLen(pmsgProto(m))
+	}
+	return append(out, off)
+}
+
+// c03Model: every checkpoint the real patcher offered must be one of the points at which the model says a
+// checkpoint can be offered, with exactly the model's state (file, message boundary, kind, bytes written, old
+// offset, target).  Theorem C03.resume_e2e then covers resumption from it.
+func c03Model(env *Env, m *wvlib.Model, c *C03Case, patch []byte, od string, saved [][]byte, tag string) {
+	oldC, newC, msgs, err := decodePatch(patch)
+	if err != nil {
+		return
+	}
+	var total int64
+	for _, f := range oldC.Files {
+		total += f.Size
+	}
+	if total > 3<<20 {
+		return // keep the model side cheap
+	}
+	offs := msgOffsets(oldC, newC, msgs)
+	idxOf := map[int64]int{}
+	for j, o := range offs {
+		idxOf[o] = j
+	}
+	mf, cl := writeMsgFile(env.Scratch, msgs)
+	defer cl()
+	oa, c1 := filesArgs(env.Scratch, oldC, od)
+	defer c1()
+	ans, merr := m.Ask(fmt.Sprintf("ckpts %d %s %s %s", wvlib.BS, mf, sizesCSV(newC), oa))
+	if merr != nil {
+		env.R.Disagree(c, fmt.Sprintf("%d checkpoints", len(saved)), "MODEL-DIED", "n/a")
+		return
+	}
+	if ans == "err" || strings.HasPrefix(ans, "panic") {
+		env.R.Disagree(c, "uninterrupted run ok", "model: "+ans, "n/a")
+		return
+	}
+	model := map[string]bool{}
+	for _, t := range strings.Fields(ans) {
+		model[t] = true
+	}
+	env.R.Count("model-checkpoint-points:"+tag, int64(len(model)))
+	for k, b := range saved {
+		ck, err := decodeCheckpoint(b)
+		if err != nil || ck.MessageCheckpoint == nil {
+			continue
+		}
+		j, ok := idxOf[ck.MessageCheckpoint.Offset]
+		if !ok {
+			env.R.Disagree(c, fmt.Sprintf("checkpoint %d: message offset %d", k, ck.MessageCheckpoint.Offset), "not a message boundary of the stream", "n/a")
+			return
+		}
+		tok := ""
+		switch {
+		case ck.RsyncCheckpoint != nil && ck.RsyncCheckpoint.WriterCheckpoint != nil:
+			tok = fmt.Sprintf("%d:%d:R:%d:-:-", ck.FileIndex, j, ck.RsyncCheckpoint.WriterCheckpoint.Offset)
+		case ck.BsdiffCheckpoint != nil && ck.BsdiffCheckpoint.WriterCheckpoint != nil:
+			tok = fmt.Sprintf("%d:%d:B:%d:%d:%d", ck.FileIndex, j, ck.BsdiffCheckpoint.WriterCheckpoint.Offset, ck.BsdiffCheckpoint.OldOffset, ck.BsdiffCheckpoint.TargetIndex)
+		default:
+			tok = fmt.Sprintf("%d:%d:-", ck.FileIndex, j)
+		}
+		if !model[tok] {
+			env.R.Disagree(c, fmt.Sprintf("checkpoint %d of the real run: %s", k, tok), "not among the model's checkpoint points: "+trunc(ans, 600), "n/a")
+			return
+		}
+		env.R.Count("real-checkpoints-matched-to-model", 1)
+	}
+}
+
 func decodeCheckpoint(b []byte) (*patcher.Checkpoint, error) {
 	c := &patcher.Checkpoint{}
 	err := gob.NewDecoder(bytes.NewReader(b)).Decode(c)
@@ -97,7 +198,7 @@ func c03Session(patch []byte, oldDir, outDir, stageDir, bowlKind string, ck *pat
 	return true, b.Close()
 }
 
-func c03One(env *Env, c *C03Case) {
+func c03One(env *Env, m *wvlib.Model, c *C03Case) {
 	old, nw := c.gen()
 	base, od, nd, clean := writePair(env.Scratch, old, nw)
 	defer clean()
@@ -140,6 +241,9 @@ func c03One(env *Env, c *C03Case) {
 	os.RemoveAll(stage0)
 	nck := len(sv0.saved)
 	env.R.Count("checkpoints-offered:"+tag, int64(nck))
+	if m != nil {
+		c03Model(env, m, c, patch, od, sv0.saved, tag)
+	}
 	if nck == 0 {
 		// liveness: with an uncompressed stream a consumer that always wants to save must get checkpoints
 		// as soon as some series has at least two messages after its first one
@@ -254,7 +358,9 @@ func runC03(env *Env) {
 	if env.Replay != "" {
 		var c C03Case
 		replayCase(env, &c)
-		c03One(env, &c)
+		m, _ := wvlib.StartModel()
+		defer m.Close()
+		c03One(env, m, &c)
 		printOutcome(env)
 		return
 	}
@@ -284,10 +390,14 @@ func runC03(env *Env) {
 		}
 	}
 	n = len(cases)
+	models := startModels(env)
 	wvlib.ParallelDo(n, env.Workers, func(i int) {
-		c03One(env, cases[i])
+		m := <-models
+		defer func() { models <- m }()
+		c03One(env, m, cases[i])
 		if i < 3 {
 			R.Sample(cases[i])
 		}
 	})
+	stopModels(env, models)
 }
